@@ -23,7 +23,7 @@ func init() {
 			"non-trivial = the spec has >= 2 block specs or the body was perturbed; distinct by source + spec kinds",
 		Assumptions: []string{"cty conversion defines attribute type conversion; hcldec.ImpliedType is used as the statement of the implied type"},
 		Quick:       Plan{Batches: 16, PerBatch: 5000, MinNonTrivial: 25000},
-		Thorough:    Plan{Batches: 64, PerBatch: 20000, MinNonTrivial: 300000},
+		Thorough:    Plan{Batches: 64, PerBatch: 200000, MinNonTrivial: 300000},
 		Case:        c08Case,
 	})
 }
